@@ -205,9 +205,12 @@ def run(ctx):
     for mtu in ([23, 100, 251, 252, 253, 257, 300, 517] if not ctx.thorough else list(range(23, 518, 13)) + [251, 252, 253, 255, 256, 257, 517]):
         for n in sorted({1, mtu - 1, mtu, mtu + 1, 2 * mtu, 255, 256, 260, 600}):
             cid = rng.choice([4, 6])
-            e2e_cases.append((mtu, cid, [mk_sdu(rng, n, cid), mk_sdu(rng, rng.randrange(1, 40), cid)]))
+            e2e_cases.append((mtu, cid, [mk_sdu(rng, n, cid), mk_sdu(rng, rng.randrange(1, 40), cid)], rng.choice([42, 0, 1, 0])))
+    # the largest SDUs the 16-bit length field can announce, end to end (connection handle 0 and 42)
+    for n in ([65531, 65532, 65535] if not ctx.thorough else [65530, 65531, 65532, 65533, 65534, 65535]):
+        e2e_cases.append((rng.choice([23, 185, 517]), rng.choice([4, 6]), [mk_sdu(rng, 40, 4), mk_sdu(rng, n, 4), mk_sdu(rng, 100, 4)], rng.choice([0, 42])))
     r4 = C.run_impl("C11.py", {"send_after": [[o, c, s.hex()] for o, c, s in after_cases],
-                               "e2e": [[m, c, [s.hex() for s in ss]] for m, c, ss in e2e_cases]})
+                               "e2e": [[m, c, [s.hex() for s in ss], h] for m, c, ss, h in e2e_cases]})
     ctx.cov["evaluations"] = len(send_cases) + len(recv_cases) + len(ll_send_idx) + len(ll_recv_idx) + len(after_cases) + len(e2e_cases)
     ctx.cov["traces_validated_against_impl"] = ctx.cov["evaluations"]
 
@@ -284,8 +287,9 @@ def run(ctx):
         if big:
             nviol += ctx.violation("link-layer payload exceeds the peer's MTU + 4 after a history of MTU updates", case,
                                    expected="<= %d" % (rm + 4), observed=big)
-    for (mtu, cid, sdus), res in zip(e2e_cases, r4["e2e"]):
-        case = {"op": "e2e", "mtu": mtu, "cid": cid, "sdus": [s.hex() for s in sdus]}
+    for (mtu, cid, sdus, handle), res in zip(e2e_cases, r4["e2e"]):
+        case = {"op": "e2e", "mtu": mtu, "cid": cid, "conn_handle": handle, "sdu_lengths": [len(s) for s in sdus],
+                "sdus": [s.hex() if len(s) <= 600 else s[:40].hex() + "..(%d bytes)" % len(s) for s in sdus]}
         if "exc" in res:
             nviol += ctx.violation("end-to-end transfer raised " + res["exc"], case, observed=res)
             continue
